@@ -60,6 +60,7 @@ class Block:
         self.attrs = ""
         self.contract = None
         self.assume = False
+        self.finding = None
 
 
 def parse_template(text):
@@ -139,6 +140,11 @@ def parse_template(text):
                 cur.trait = arg.strip() or "|"
             elif cmd == "rename":
                 cur.rename = arg.strip()
+            elif cmd == "finding":
+                # property-level contract on a renamed copy; expected to FAIL only when the tag is
+                # listed in known_findings.txt (then: KNOWN-FINDING), otherwise a failure is a VIOLATION
+                cur.finding = arg.strip()
+                cur.flags.add("noprobe")
             elif cmd in ("drop_derive", "keep_pub", "noprobe", "noimpl", "plain", "implspec"):
                 cur.flags.add(cmd)
             else:
@@ -354,6 +360,8 @@ def generate(unit, probe=False, repo=None):
         b = val
         item = extract.find(os.path.join(repo, b.path), b.spec)
         drops = []
+        if b.finding and not b.rename:
+            b.rename = f"{item.name}__finding_{b.finding}"
         if b.contract:
             c = load_contract(b.contract)
             ce = c.fns.get((b.path, b.spec))
@@ -428,7 +436,7 @@ def generate(unit, probe=False, repo=None):
             "parent": item.parent.name if item.parent is not None else None,
             "src_line": item.line(), "sha256": extract.sha(raw),
             "out_lines": [start, line - 1], "has_requires": has_req, "contract": bool(b.clauses.strip()),
-            "drops": drops,
+            "drops": drops, "finding": b.finding,
         }
         if opts["probe"]:
             meta["probes"].append(rec["name"])
